@@ -279,6 +279,20 @@ def check_tables(ctx, F, c, I, tb):
             src = Tracer(b, through_calls=True).sources({"cp": d["l"]})
             if any(is_cell_borrow(b, x) for x in src):
                 cell_writers.append((b, bb, j, s))
+        # stores through the cell API: RefCell::replace / Cell::set / Cell::replace / RefCell::swap on the same field
+        for bb, t in b.calls():
+            if t["call"]["name"] in ("replace", "set", "swap", "replace_with") and ("cell::RefCell" in t["call"]["def"] or "cell::Cell" in t["call"]["def"]):
+                tr_ = Tracer(b, through_calls=True)
+                hit = False
+                for s_ in tr_.sources(t["args"][0]):
+                    x = s_
+                    while x[0] == "field":
+                        for e in thaw(x[2]):
+                            if isinstance(e, dict) and e.get("n") == "log_safety":
+                                hit = True
+                        x = x[1]
+                if hit:
+                    cell_writers.append((b, bb, "T", {"ln": t["ln"], "r": {"use": t["args"][1]}, "d": 0}))
     ctx.check(len(cell_writers) >= 1, "R8.3", nb.loc(), "memo|writer-exists", "no store into the named-type safety cell found (anchor lost)", nontrivial=False)
     for b, bb, j, s in cell_writers:
         cfgb = CFG(b)
@@ -297,13 +311,61 @@ def check_tables(ctx, F, c, I, tb):
 
 
 def repeat_until_stable(b, cfg, store_bb):
-    """exists a bool flag set to true in a block reachable straight from the store (same arm) and a switch on that flag whose
-    'true' side can reach the store again while its 'false' side cannot"""
+    """exists a bool flag that (1) is assigned in the loop body of the store, (2) is sticky there — every assignment inside
+    the innermost cycle through the store is `true`, `flag | e`, or guarded by the flag being false — and (3) a switch on the
+    flag decides whether the store is reached again ('true' side can, 'false' side cannot)"""
     flags = set()
+    body_blocks = {x for x in cfg.reachable_from(store_bb) if store_bb in cfg.reachable_from(x)}
+    cand = {}
     for bb, j, s in b.stmts():
-        if "use" in s["r"] and (s["r"]["use"].get("c") or {}).get("bool") is True and not place_proj(s["d"]):
-            if bb == store_bb or (cfg.dominates(store_bb, bb) and not cfg.in_loop(bb) is None):
-                flags.add(place_local(s["d"]))
+        if tystr(b.local_ty(place_local(s["d"]))) == "bool" and not place_proj(s["d"]) and (bb == store_bb or cfg.dominates(store_bb, bb) or bb in body_blocks):
+            cand.setdefault(place_local(s["d"]), []).append((bb, j, s))
+    def switches_on(f):
+        out = set()
+        for i, blk in enumerate(b.blocks):
+            if "switch" in blk["t"] and i in cfg.reach:
+                r_ = dt.resolve_copy(b, blk["t"]["switch"])
+                locs = set()
+                if r_[0] == "place":
+                    locs.add(place_local(r_[1]))
+                if r_[0] == "def" and r_[1][1] != "T" and "un" in r_[1][2]["r"] and op_place(r_[1][2]["r"]["a"]) is not None:
+                    inner = dt.resolve_copy(b, r_[1][2]["r"]["a"])
+                    locs.add(place_local(op_place(r_[1][2]["r"]["a"])))
+                    if inner[0] == "place":
+                        locs.add(place_local(inner[1]))
+                if f in locs:
+                    out.add(i)
+        return out
+    for f, assigns in cand.items():
+        if not any(bb in body_blocks or cfg.dominates(store_bb, bb) for bb, j, s in assigns):
+            continue
+        sticky = True
+        sets_true = False
+        decision = switches_on(f)
+        same_pass = cfg.reachable_from(store_bb, avoid=decision) if decision else set()
+        for bb, j, s in assigns:
+            r = s["r"]
+            inside = bb in same_pass and bb != store_bb or (bb == store_bb)
+            if "use" in r and (r["use"].get("c") or {}).get("bool") is True:
+                sets_true = True
+                continue
+            if "use" in r and (r["use"].get("c") or {}).get("bool") is False and not inside:
+                continue   # reset at the start of a pass
+            if "bin" in r and r["bin"] == "BitOr" and any(op_place(x) is not None and place_local(op_place(x)) == f for x in (r["a"], r["b"])):
+                sets_true = True
+                continue
+            if inside:
+                guarded = False
+                for sbb, allowed, allv in dt.edge_conditions(cfg, bb):
+                    atom = dt.switch_atom(b, sbb)
+                    if atom[0] == "place" and place_local(atom[1]) == f and dt.bool_polarity(allowed) is False:
+                        guarded = True
+                if guarded:
+                    sets_true = True
+                    continue
+                sticky = False
+        if sticky and sets_true:
+            flags.add(f)
     for i, blk in enumerate(b.blocks):
         t = blk["t"]
         if "switch" not in t or i not in cfg.reach:
